@@ -1,6 +1,7 @@
 import Driver.Wire
 import Driver.Ops02
 import Ramses.Model.Builders
+import Ramses.Model.OpenTherm
 namespace Driver
 open Ramses
 
@@ -77,6 +78,14 @@ def ops03 (op : String) (a : List String) : Option String :=
   | "build", ["set_tpi_params", c, dom, cr, on, off, pbw] => (parseOptIdx dom).bind fun dom => cr.toInt?.bind fun cr => on.toInt?.bind fun on =>
       off.toInt?.bind fun off => (parseFloatArg pbw).map fun pbw => showBuilt (setTpiParams (unesc c) dom cr on off pbw)
   | "build", ["set_zone_name", c, i, n] => (parseIdx i).map fun i => showBuilt (setZoneName (unesc c) i (unesc n))
+  | "build", ["get_opentherm_data", c, i] => (parseIdx i).map fun i => showBuilt (OT.getOpenthermData (unesc c) i)
+  | "build", ["get_system_log_entry", c, i] => (parseIdx i).map fun i => showBuilt (OT.getSystemLogEntry (unesc c) i)
+  | "build", ["get_schedule_fragment", c, i, fn, tot] => (parseIdx i).bind fun i => fn.toInt?.bind fun fn => (parseOptInt tot).map fun tot =>
+      showBuilt (OT.getScheduleFragment (unesc c) i fn tot)
+  | "build", ["set_schedule_fragment", c, i, fn, cnt, fr] => (parseIdx i).bind fun i => fn.toInt?.bind fun fn => cnt.toInt?.map fun cnt =>
+      showBuilt (OT.setScheduleFragment (unesc c) i fn cnt (unesc fr))
+  | "ot.parity", [x] => x.toNat?.map fun x => s!"ok\t{OT.parity x}"
+  | "ot.check", [fr] => some (showPy (fun _ => "ok") (OT.frameCheck (unesc fr)))
   | _, _ => none
 
 end Driver
